@@ -456,3 +456,77 @@ def doc(text: str | bytes) -> dict:
         else:
             d["shape"] = "noneditable"
             return d
+
+
+# ---------------------------------------------------------------------------
+# chain_of(text): the Scoping.tla chain around the reference `x = <name>;' (independent reader)
+
+def _binds_of(nodes, b) -> tuple[list[dict], object, object]:
+    """(binds, node of k's value, node of x's value) of a binding_set's children."""
+    binds, knode, xnode = [], None, None
+    for c in nodes:
+        if c.type == "binding":
+            ap = next(x for x in c.children if x.type == "attrpath")
+            names = _attr_names(ap, b)
+            vn = [x for x in c.named_children if x.type not in ("attrpath", "comment")][-1]
+            if names == ["k"]:
+                knode = vn
+                continue
+            if names == ["x"]:
+                xnode = vn
+                continue
+            if len(names) != 1:
+                continue
+            if vn.type == "integer_expression":
+                binds.append({"n": names[0], "k": "lit", "v": int(_text(vn, b)), "m": ""})
+            elif vn.type == "variable_expression":
+                binds.append({"n": names[0], "k": "ref", "v": 0, "m": _text(vn, b)})
+            else:
+                binds.append({"n": names[0], "k": "opq", "v": 0, "m": _tok_text(vn, b)})
+        elif c.type == "inherit":
+            for x in c.named_children:
+                if x.type == "inherited_attrs":
+                    for y in x.named_children:
+                        binds.append({"n": _text(y, b), "k": "inh", "v": 0, "m": ""})
+    return binds, knode, xnode
+
+
+def chain_of(text: str | bytes) -> dict | None:
+    root, b = cst(text)
+    if root.has_error:
+        return None
+    node = next((c for c in root.children if c.type != "comment"), None)
+    frames: list[dict] = []
+    x = None
+    while node is not None:
+        t = node.type
+        if t == "let_expression":
+            bs = next((c for c in node.children if c.type == "binding_set"), None)
+            binds, _, _ = _binds_of(bs.children if bs else [], b)
+            frames.append({"kind": "let", "binds": binds})
+            node = node.child_by_field_name("body")
+        elif t == "with_expression":
+            env = node.child_by_field_name("environment")
+            bs = next((c for c in env.children if c.type == "binding_set"), None) if env is not None else None
+            binds, _, _ = _binds_of(bs.children if bs else [], b)
+            frames.append({"kind": "with", "binds": binds})
+            node = node.child_by_field_name("body")
+        elif t in ("attrset_expression", "rec_attrset_expression"):
+            bs = next((c for c in node.children if c.type == "binding_set"), None)
+            binds, knode, xnode = _binds_of(bs.children if bs else [], b)
+            kind = "rec" if t == "rec_attrset_expression" else "set"
+            if xnode is not None:
+                if kind == "rec" or binds:
+                    frames.append({"kind": kind, "binds": binds})
+                x = {"k": "ref", "n": _text(xnode, b)} if xnode.type == "variable_expression" else \
+                    {"k": "int", "v": int(_text(xnode, b))} if xnode.type == "integer_expression" else {"k": "opq", "h": _tok_text(xnode, b)}
+                break
+            frames.append({"kind": kind, "binds": binds})
+            node = knode
+        elif t == "parenthesized_expression":
+            node = node.child_by_field_name("expression") or node.named_children[0]
+        else:
+            return None
+    if x is None:
+        return None
+    return {"ch": frames, "x": x}
